@@ -83,4 +83,48 @@ theorem load_model_skeleton :
     Gen.FrontEnd.loadModelEndsOk = true ∧ Gen.FrontEnd.loadModelEnsuresXor = true ∧
     Gen.FrontEnd.loadModelBareErrorReturns = 0 := by decide
 
+/-- With every stage under the recursion guard, `load_model` never lets a `RecursionError` escape, whatever the
+stages do … -/
+theorem loadG_never_crashes (guarded : String → Bool) (res : String → StageOut) (report : String → Text)
+    (tooDeep : Text) (stages : List String) (h : ∀ s ∈ stages, guarded s = true) :
+    loadG guarded res report tooDeep stages ≠ .crash := by
+  induction stages with
+  | nil => simp [loadG]
+  | cons s rest ih =>
+    have hs : guarded s = true := h s (by simp)
+    have hr : ∀ t ∈ rest, guarded t = true := fun t ht => h t (by simp [ht])
+    unfold loadG
+    cases hres : res s <;> simp [hs, ih hr]
+
+/-- … the hypothesis is needed: an unguarded stage that overflows is a crash (the pinned tree before the repair,
+known finding C01-F1). -/
+theorem loadG_unguarded_crashes_example :
+    loadG (fun _ => false) (fun s => if s == "b" then .overflow else .ok) (fun s => Text.ofString s) [] ["a", "b", "c"]
+      = .crash := by decide
+
+example : (∀ s ∈ ["a", "b"], (fun _ : String => true) s = true) := by simp
+
+/-- Without overflows the guarded composition is the plain one. -/
+theorem loadG_without_overflow (guarded : String → Bool) (ok : String → Bool) (report : String → Text)
+    (tooDeep : Text) (stages : List String) :
+    loadG guarded (fun s => if ok s then .ok else .failed) report tooDeep stages =
+      (match load ok report stages with
+       | .table => .table
+       | .error m => .error m) := by
+  induction stages with
+  | nil => simp [loadG, load]
+  | cons s rest ih =>
+    unfold loadG load
+    by_cases h : ok s = true <;> simp [h, ih]
+
+/-- *Table*: every stage of the current `load_model` runs under `except RecursionError` (regenerated from run.py). -/
+theorem load_model_recursion_guarded :
+    ∀ s ∈ Gen.FrontEnd.loadModelStages, Gen.FrontEnd.loadModelRecursionGuardedStages.contains s = true := by decide
+
+/-- Hence the current `load_model` turns an input nested beyond the recursion limit into an error report. -/
+theorem load_model_never_crashes_on_deep_input (res : String → StageOut) (report : String → Text) (tooDeep : Text) :
+    loadG (fun s => Gen.FrontEnd.loadModelRecursionGuardedStages.contains s) res report tooDeep
+      Gen.FrontEnd.loadModelStages ≠ .crash :=
+  loadG_never_crashes _ res report tooDeep _ load_model_recursion_guarded
+
 end AasVerif.Props.C01
